@@ -21,5 +21,6 @@ func genAll() {
 	genHandler()
 	genNetRules()
 	genHTTPW()
+	genReshareRules()
 	genScripts()
 }
